@@ -114,6 +114,29 @@ def run_impl(case):
             inner_seen.setdefault(self.parameters['tag'], []).append(states['env']['level'])
             return {}
 
+    watched = []
+
+    class Watcher(Process):
+        """declares the members of a collection and nothing of them (`'*': {}`): one empty entry per member"""
+        name = f'movefar-watcher-{next(_ids)}'
+
+        def ports_schema(self):
+            return {'members': {'*': {}}}
+
+        def next_update(self, timestep, states):
+            watched.append({k: (sorted(v) if isinstance(v, dict) else repr(v)) for k, v in states['members'].items()})
+            return {}
+
+    class Editor(Process):
+        """declares the variables the members of that collection hold"""
+        name = f'movefar-editor-{next(_ids)}'
+
+        def ports_schema(self):
+            return {'members': {'*': {'x': {'_default': 1}, 'inner': {'y': {'_default': 3}}}}}
+
+        def next_update(self, timestep, states):
+            return {}
+
     class Mover(Process):
         name = f'movefar-mover-{next(_ids)}'
 
@@ -138,15 +161,16 @@ def run_impl(case):
     obs = {}
     try:
         wiring = {'inner': {'own': (), 'env': ('..', '..')}}
-        eng = Engine(processes={'mover': Mover({}), 'viewer': Viewer({}),
+        eng = Engine(processes={'mover': Mover({}), 'viewer': Viewer({}), 'watcher': Watcher({}), 'editor': Editor({}),
                                 'envA': {'agents': {'a': {'inner': Inner({'tag': 'a'})},
                                                     'b': {'inner': Inner({'tag': 'b'})}}},
                                 'envB': {'agents': {'c': {'inner': Inner({'tag': 'c'})}}}},
                      topology={'mover': {'envA': ('envA',), 'envB': ('envB',)},
                                'viewer': {'A': ('envA', 'agents'), 'B': ('envB', 'agents')},
+                               'watcher': {'members': ('static',)}, 'editor': {'members': ('static',)},
                                'envA': {'agents': {'a': dict(wiring), 'b': dict(wiring)}},
                                'envB': {'agents': {'c': dict(wiring)}}},
-                     initial_state={'level': -1,
+                     initial_state={'level': -1, 'static': {'s1': {'x': 1, 'inner': {'y': 3}}, 's2': {'x': 2}},
                                     'envA': {'level': 100, 'agents': {'a': {'x': 1}, 'b': {'x': 2}}},
                                     'envB': {'level': 200, 'agents': {'c': {'x': 3}}}},
                      emitter={'type': 'null'}, display_info=False, progress_bar=False)
@@ -154,6 +178,7 @@ def run_impl(case):
             eng.update(1)
         obs['seen'] = seen
         obs['inner'] = inner_seen
+        obs['watched'] = watched
         w = eng.state.get_value()
         obs['final'] = {e: {k: v['x'] for k, v in w[e]['agents'].items()} for e in ('envA', 'envB')}
     except Exception as e:  # noqa
@@ -174,6 +199,11 @@ def oracle(case, impl):
         if got != w:
             fails.append(f'moved-view: at invocation {i} the viewer is shown {got}; after {case["steps"][:i]} the '
                          f'collections hold {w}')
+            break
+    for i, w in enumerate(impl.get('watched', [])):
+        if w != {'s1': [], 's2': []}:
+            fails.append(f'undeclared: a process that declares the members of a collection and nothing of them '
+                         f'(`*: {{}}`) is shown {w} at invocation {i}; one empty entry per member')
             break
     level = {'envA': 100, 'envB': 200}
     for k in ('a', 'b', 'c'):
